@@ -199,6 +199,38 @@ theorem prune_protocol_safe (r : Repo) (ps : List Pack) (idx : IndexFile) (rmIdx
     obtain ⟨h1, h2⟩ := s3 i hi
     exact s2.unlisted i hi h2 p hp
 
+/-- the flag combinations the property covers (only instant-delete + early-delete-index is excluded) all run the SAFE order:
+in particular `early_delete_index` WITHOUT `instant_delete` is inert — the rebuilt index files are removed after the new
+index is written (index removal last), exactly like plain prune. -/
+theorem pruneOpsOpt_covered_is_safe_order (f : PruneFlags) (hf : ¬(f.instantDelete = true ∧ f.earlyDeleteIndex = true))
+    (ps : List Pack) (idx : IndexFile) (rmIdx rmPacks : List Nat) :
+    pruneOpsOpt f ps idx rmIdx rmPacks = pruneOps ps idx rmIdx rmPacks := by
+  have he : f.early = false := by
+    cases f with
+    | mk i e => cases i <;> cases e <;> simp_all [PruneFlags.early]
+  simp [pruneOpsOpt, pruneOps, he]
+
+/-- **prune, every covered option combination** (`instant_delete` × `early_delete_index` except both): every prefix of the
+operations `prune_repository` issues leaves a consistent repository (premises as in `prune_protocol_safe`). -/
+theorem prune_protocol_safe_all_options (f : PruneFlags) (hf : ¬(f.instantDelete = true ∧ f.earlyDeleteIndex = true))
+    (r : Repo) (ps : List Pack) (idx : IndexFile) (rmIdx rmPacks : List Nat)
+    (h : consistent r = true)
+    (hidx : idx.packs.all (idxPackSound (applyAll r (ps.map Op.writePack))) = true)
+    (hc : PruneCover (applyAll r (ps.map Op.writePack ++ [Op.writeIndex idx])) rmIdx rmPacks) :
+    ∀ r' ∈ prefixStates r (pruneOpsOpt f ps idx rmIdx rmPacks), consistent r' = true := by
+  rw [pruneOpsOpt_covered_is_safe_order f hf]
+  exact prune_protocol_safe r ps idx rmIdx rmPacks h hidx hc
+
+/-- `early_delete_index = true, instant_delete = false` — inside the property — is the order packs → new index → old index
+files → old packs; were the option honoured on its own (seeded change C03-5) the old index files would go first and the
+prefix after the first removal has a snapshot without index (`prune_early_delete_index_unsafe`). -/
+theorem prune_early_without_instant_removes_index_last (ps : List Pack) (idx : IndexFile) (rmIdx rmPacks : List Nat) :
+    pruneOpsOpt ⟨false, true⟩ ps idx rmIdx rmPacks =
+      ps.map Op.writePack ++ [Op.writeIndex idx] ++ rmIdx.map Op.removeIndex ++ rmPacks.map Op.removePack ∧
+    pruneOpsOpt ⟨true, true⟩ ps idx rmIdx rmPacks =
+      rmIdx.map Op.removeIndex ++ ps.map Op.writePack ++ [Op.writeIndex idx] ++ rmPacks.map Op.removePack := by
+  simp [pruneOpsOpt, PruneFlags.early]
+
 /-! ### (3) negative results: orders that are *not* safe -/
 
 def wKey : Key := (.data, 1)
@@ -233,6 +265,13 @@ theorem repairIndex_write_first_safe :
 old index files first leaves a prefix without index. -/
 theorem prune_early_delete_index_unsafe :
     firstBad wRepo [.removeIndex 1, .writeIndex { id := 2, packs := [{ id := 1, blobs := [wKey] }] }] ≠ none := by decide
+
+/-- non-vacuity + the witness: on `wRepo` (one pack, one index file, one snapshot) a prune that rebuilds the index is safe at
+every prefix for (instant, early) ∈ {(0,0), (1,0), (0,1)} and has an inconsistent prefix for (1,1) -/
+theorem prune_flag_table :
+    let idx : IndexFile := { id := 2, packs := [{ id := 1, blobs := [wKey] }] }
+    [(false, false), (true, false), (false, true), (true, true)].map
+      (fun (i, e) => firstBad wRepo (pruneOpsOpt ⟨i, e⟩ [] idx [1] [])) = [none, none, none, some 1] := by decide
 
 /-- indexing a pack before writing it is visible as an unsound index at the prefix in between. -/
 theorem index_before_pack_unsafe :
